@@ -1643,17 +1643,33 @@ def run(rep):
         de_params = [p for p in de.params() if p not in ('self', 'cls')]
         obj_param = de_params[0] if de_params else 'obj'
         is_dev = lambda t: norm(t) == 'self.dev_mode'
-        for r in raises_of(de):
-            if raise_type(r) == 'TypeError':
-                cs = conds(de, r)
-                ok = has_cond(cs, is_dev, False)
-                rep.check('R17.d', fkey(de, 'raise TypeError'), ok,
-                          'raise is reachable only when self.dev_mode is false' if ok else
-                          'TypeError can be raised although dev_mode is true (conditions: %s)' % '; '.join(cond_texts(cs)),
-                          simple, r)
-        reprs = [r for r in returns_of(de) if r.value is not None and
-                 (_is_repr_of(r.value, obj_param) or (isinstance(r.value, ast.Call) and call_name(r.value) == 'repr'))
-                 and has_cond(conds(de, r), is_dev, True)]
+        # the fallback may live in a method default() ends in (return self.fallback(obj)): follow it one level
+        res = follow_resolver(repo, de)
+        bodies = [(de, obj_param)]
+        for r in returns_of(de):
+            if isinstance(r.value, ast.Call) and res(r.value) is not None and any(norm(a) == obj_param for a in r.value.args):
+                callee = res(r.value)
+                cps = [p for p in callee.params() if p not in ('self', 'cls')]
+                idx = [norm(a) for a in r.value.args].index(obj_param)
+                if callee not in [b[0] for b in bodies] and idx < len(cps):
+                    bodies.append((callee, cps[idx]))
+        n_raise = 0
+        for f_, objp in bodies:
+            for r in raises_of(f_):
+                if raise_type(r) == 'TypeError':
+                    n_raise += 1
+                    cs = conds(f_, r)
+                    ok = has_cond(cs, is_dev, False)
+                    rep.check('R17.d', fkey(f_, 'raise TypeError'), ok,
+                              'raise is reachable only when self.dev_mode is false' if ok else
+                              'TypeError can be raised although dev_mode is true (conditions: %s)' % '; '.join(cond_texts(cs)),
+                              f_.mod, r)
+        reprs = [r for f_, objp in bodies for r in returns_of(f_) if r.value is not None and
+                 (_is_repr_of(r.value, objp) or (isinstance(r.value, ast.Call) and call_name(r.value) == 'repr'))
+                 and has_cond(conds(f_, r), is_dev, True)]
+        if not reprs and not n_raise and not any('dev_mode' in norm(n) for f_, o in bodies for n in walk_body(f_.node)
+                                                 if isinstance(n, ast.Attribute)):
+            raise AnalysisError('ClasticJSONEncoder.default: the dev-mode fallback (repr / TypeError) was not found')
         rep.check('R17.d', fkey(de, 'return repr'), bool(reprs),
                   'dev mode degrades unknown objects to repr(obj)' if reprs else
                   'no "return repr(obj)" under self.dev_mode', simple, de.node)
